@@ -187,3 +187,17 @@ def impl_parse(blocks):
 
         rec(card._data, [])
         return dict(r="card", sections=secs, toc=card.get_toc(), render=card.render())
+
+
+def impl_parse_twice(blocks):
+    """the same parser object asked twice: (first render, second render) or None when the document is refused"""
+    from skops.card._parser import PandocParser
+
+    with patched_table():
+        try:
+            parser = PandocParser(json.dumps({"blocks": blocks, "pandoc-api-version": [1, 22], "meta": {}}))
+            a = parser.generate()
+            b = parser.generate()
+        except ValueError:
+            return None
+        return (a.render(), a.get_toc()), (b.render(), b.get_toc())
